@@ -13,3 +13,26 @@ C03_PREPARE_OWNER_EXEMPT = {
         'prover side of aggregation: inner proofs are re-run only to derive the accumulator (it asserts, documented "Panics"); '
         'acceptance is decided by the in-circuit verifier and by LightAggregator::verify',
 }
+
+# (function | kind | detail) -> reason the site cannot fire for any batch
+C15_PANIC_TRIAGE = {
+}
+
+# key = 'fn|kind|detail|labels' -> reason the flow is harmless
+C16_TAINT_TRIAGE = {
+    'midnight_proofs::plonk::verifier::verify_algebraic_constraints|index|alloc::vec::Vec[Range]|integer read from proof':
+        'l_i_s is built three statements earlier from max_instance_len = max over all instance columns, so '
+        'offset + instances.len() <= l_i_s.len() for every column by construction (max() is a lower bound the analysis drops)',
+    'midnight_proofs::utils::arithmetic::compute_inner_product|assert|assert_eq!(!(*left_val == *right_val))|integer read from proof':
+        'only reached with b = l_i_s[offset..offset + a.len()]: both slices have a.len() elements by construction',
+    'midnight_proofs::plonk::VerifyingKey::from_parts|assert-on-checked|assert!(!(*k <= PrimeField::S))|int decoded from bytes in VerifyingKey::read_from_cs':
+        'same condition as the caller\'s escaping test `k as u32 > F::S` in read_from_cs (pinned by C16.R2 read_from_cs:k-guard)',
+    'midnight_proofs::poly::domain::EvaluationDomain::new|assert-on-checked|assert!(!(extended_k <= PrimeField::S))|int decoded from bytes in VerifyingKey::read_from_cs':
+        'read_from_cs repeats the extended_k computation and rejects extended_k > S before the call (pinned by C16.R2 read_from_cs:extended-k-guard)',
+    'midnight_proofs::poly::domain::EvaluationDomain::new|assert-on-checked|assert_eq!(!(*left_val == *right_val))|int decoded from bytes in VerifyingKey::read_from_cs':
+        'algebraic fact: extended_omega^n has order exactly 2^(extended_k-k) for every k <= extended_k <= S, so the loop collects that many values',
+    'midnight_aggregator::inner_product_argument::ipa_verify|assert-on-checked|assert!(!bases1.len().is_power_of_two())|integer read from proof':
+        'LightAggregator::verify resizes both base vectors to bases1.len().next_power_of_two() immediately before the call',
+    'midnight_aggregator::inner_product_argument::inner_product|assert-on-checked|assert_eq!(!(*left_val == *right_val))|integer read from proof':
+        'called on the two halves / equally resized vectors inside ipa_verify: equal lengths follow from the power-of-two resize in the caller',
+}
